@@ -76,6 +76,7 @@ type BaseStore struct {
 	muCache   sync.RWMutex
 	muIndex   sync.RWMutex
 	muJoining sync.Mutex
+	muWrite   sync.Mutex
 	sortFn    ipfslog.SortFn
 	logger    *zap.Logger
 	tracer    trace.Tracer
@@ -880,8 +881,13 @@ func (b *BaseStore) AddOperation(ctx context.Context, op operation.Operation, on
 
 	oplog := b.OpLog()
 
+	// concurrent writers must persist their heads in the order of their
+	// appends: the cached local head is the entry of the last put, and it has to
+	// be the newest one for every acknowledged write to be found again on load
+	b.muWrite.Lock()
 	e, err := oplog.Append(ctx, data, &ipfslog.AppendOptions{PointerCount: b.referenceCount})
 	if err != nil {
+		b.muWrite.Unlock()
 		return nil, fmt.Errorf("unable to append data on log: %w", err)
 	}
 
@@ -890,10 +896,12 @@ func (b *BaseStore) AddOperation(ctx context.Context, op operation.Operation, on
 
 	marshaledEntry, err := json.Marshal([]ipfslog.Entry{e})
 	if err != nil {
+		b.muWrite.Unlock()
 		return nil, fmt.Errorf("unable to marshal entry: %w", err)
 	}
 
 	err = b.Cache().Put(ctx, datastore.NewKey("_localHeads"), marshaledEntry)
+	b.muWrite.Unlock()
 	if err != nil {
 		return nil, fmt.Errorf("unable to add data to cache: %w", err)
 	}
